@@ -199,11 +199,15 @@ fn macro_expand(
         bail!("call undefined macro {} on {}", macro_name, line);
     }
 
+    // the last segment is kept even when it is empty: it is where the body left off
+    // (a body that ends with `.cseg` hands the caller back to the code segment)
+    let last = segments.borrow().len() - 1;
     let segments = segments
         .borrow()
         .iter()
-        .filter(|x| !x.borrow().is_empty())
-        .map(|x| x.borrow().clone())
+        .enumerate()
+        .filter(|(i, x)| *i == last || !x.borrow().is_empty())
+        .map(|(_, x)| x.borrow().clone())
         .collect();
 
     Ok(segments)
